@@ -63,7 +63,7 @@ $(BUILD)/zz_hist: $(BUILD)/zz_hist.o $(BUILD)/core.o $(foreach k,$(ZZ_TUS),$(BUI
 	$(CXX) $(LDFLAGS_ASAN) $^ -o $@
 
 # own (C15)
-OWN_TUS = 0 1 2 3 4 5
+OWN_TUS = 0 1 2 3 4 5 6 7 8
 $(foreach k,$(OWN_TUS),$(BUILD)/own_cfg_$(k).o): $(BUILD)/own_cfg_%.o: /verif/engines/own_cfg.cpp
 	@mkdir -p $(BUILD)
 	$(CXX) $(CXXFLAGS_COMMON) $(SAN) $(INC) -DGUDHI_USE_TBB -DOWN_TU=$* -c $< -o $@
